@@ -27,10 +27,16 @@ CHECKS = {
         text=("Theorems (Props/C02.lean): completeness — every in-bounds leaf assignment making the model true extends to an "
               "in-box integer point of the asserted system (complete); soundness — in solver-safe form (no compound under a "
               "negative parent) x(id) <= truth value for every node, hence the leaf part of every in-box integer point of the "
-              "asserted system makes the model true (sound, sound_active); the hypothesis is forced (unsafe_witness). Tie: same "
-              "encode correspondence as C01 incl. the solver-safe flag; oracle: brute-force enumeration of every in-box integer "
-              "point of the real matrix, both inclusions."),
-        note="Enumeration only for boxes up to 20000 (quick) / 300000 (thorough) points; auxiliary columns free.",
+              "asserted system makes the model true (sound, sound_active); the hypothesis is forced (unsafe_witness); 'negation pushes "
+              "inwards to re-establish this form' — expr_safe / expr_sound: every constructor expression of the safe grammar "
+              "(Ast.SafeExpr: boolean variables; All/Any/XNor/Imply/Not/positively signed AtLeast over safe arguments, arbitrarily "
+              "nested; AtMost/Xor/negatively signed AtLeast over variables) builds a solver-safe model, so the leaf part of every "
+              "in-box integer point of its asserted system makes it true (Lemmas/SafeBuild.lean: the invariant is preserved by "
+              "every constructor and by negate). Tie: same encode correspondence as C01 incl. the solver-safe flag, on random "
+              "models, hash-colliding twins handled in the same process, and a stream of nested negations; oracle: brute-force "
+              "enumeration of every in-box integer point of the real matrix, both inclusions, soundness demanded for solver-safe "
+              "models and for every expression of the safe grammar."),
+        note="Enumeration only for boxes up to 20000 (quick) / 300000 (thorough) points; auxiliary columns free. expr_sound keeps Free01 (no sub-proposition pre-fixed) as a hypothesis, as the statement does.",
         technique="Lean 4 theorem (mutual structural induction, omega) + per-run model/code differential correspondence",
         ref="§4 C02"),
     "C04": dict(
@@ -97,16 +103,21 @@ CHECKS = {
         technique="Lean 4 theorem over a heap/step model (thin) + history-driven differential correspondence with structural snapshots",
         ref="§4 C09"),
     "C13": dict(
-        text=("Theorems (Props/C13.lean) about the optimized bit allocation that `shadow` uses for its weights: oba_length, "
-              "oba_pos (every weight >= 1), oba_equal (equal consecutive priorities share a weight), oba_dominates (a new "
-              "priority gets 1 + the sum of all earlier weights, hence strictly more than that sum), oba_mono. Tie: "
-              "py_optimized_bit_allocation_64 (puan-rspy) compared with the model's oba, and ndint_compress compared with the "
-              "model for shadow/prio/rank/first/last/min/max on 1-D, 2-D (both axes) and 3-D batches; oracle: the statement's "
-              "clauses (zeros and signs kept, equal priorities equal weights, order preserved, each weight > sum of all lower "
-              "ones; prio/rank dense rankings; first/last/min/max) checked on the real output per 2-D slice."),
-        note="PARTIAL at the theorem level: dominance/equality/order are proved for the bit allocation over the sorted priority sequence; that shadow's per-column plumbing (last non-zero per column, sorting, sign restoration) feeds it correctly, and the prio/rank/first/last/min/max clauses, rest on the correspondence and the oracle. 64-bit overflow is outside the model (unbounded Int).",
-        technique="Lean 4 theorem (fold invariant) + differential correspondence + clause-by-clause oracle",
-        ref="§4 C13"),
+        text=("Theorems (Props/C13.lean). About `shadow` in its key form shadowSpec (key of a column = row of its last non-zero "
+              "entry, then magnitude; weights = bit allocation over the sorted keys): shadow_clauses — for every array and every "
+              "column: zero kept, sign of the last non-zero entry kept, magnitude a function of the key (equal priorities, equal "
+              "weights), magnitude >= 1, strictly smaller key => strictly smaller magnitude (weight_strict_mono; later rows above "
+              "earlier rows, then magnitude), and magnitude = 1 + the sum of the magnitudes of ALL columns ranked strictly below "
+              "(weight_dominates, shadow_strictly_dominates) — by an invariant of the allocation along any sorted key list "
+              "(Lemmas/Shadow.lean: table_weight, insertion sort is a sorted permutation). About the integer bit allocation "
+              "that puan-rspy computes: oba_pos, oba_equal, oba_dominates, oba_mono. Tie: ndint_compress compared, for shadow, "
+              "BOTH with the model that mirrors the code's plumbing (shadow2d) and with shadowSpec, on 1-D, 2-D (both axes) and 3-D "
+              "batches incl. all-zero and fully overridden rows; py_optimized_bit_allocation_64 compared with oba; prio / rank / "
+              "first / last / min / max compared with the model; oracle: the statement's clauses checked on the real output per "
+              "2-D slice; thorough: every 3x3 array over {-1,0,1,2} and every 2x3 array over {-2..2} x 7 methods."),
+        note="prio / rank (dense rankings) and first / last / min / max have no theorem: they rest on the correspondence and the oracle. 64-bit overflow is outside the model (unbounded Int); generated sizes keep totals far below 2^63.",
+        technique="Lean 4 theorem (invariant of the bit allocation over sorted keys, insertion-sort permutation) + differential correspondence against both the plumbing model and the key specification + clause-by-clause oracle",
+        ref="§4 C13, §10"),
     "C10": dict(
         text=("Theorems (Props/C10.lean), about errors() as repaired by the fix: commits for defects D4 and D5: errors_nil_iff; "
               "single_bounds (an accepted model gives every id one pair of bounds), single_definition + sameDef_spec (every "
